@@ -243,12 +243,25 @@ def c11TextGrid : Handler := fun c => do
       | .ok (r, a, b) =>
         r.length == t.length &&
         (List.zip r t).all (fun (x, y) => x.1 == y.1 && withinHalfUlp p x.2.1 y.2.1 &&
-          (if isPoint then x.2.2 == x.2.1 else withinHalfUlp p x.2.2 y.2.2)) &&
+          (!isPoint || x.2.2 == x.2.1) &&
+          -- the end is within the print precision whatever the tier type (C11_textgrid_inferred), unless a point
+          -- tier was asked for on a segment with a length
+          (withinHalfUlp p x.2.2 y.2.2 || (pt == some true && y.2.1 != y.2.2))) &&
         withinHalfUlp p a (minList (t.map (·.2.1))) && withinHalfUlp p b (maxList (t.map (·.2.2)))
       | .error _ => false
     let fillSpecJ := match nofill, fill with
       | .ok (r, a, b), some ft => listJ timedJ (specFill ft b a r)
       | _, _ => Json.null
+    -- C11_textgrid_inferred / writeTextGridInferAt_precision: the code judges "zero length" at the print precision
+    if (match writeTextGridInferAt p t o with | .ok g => g != f | .error _ => true) then
+      throw "internal: writeTextGridInferAt precision != writeTextGrid"
+    let ordered := (List.zip t t.tail).all (fun (x, y) => decide (x.2.1 ≤ y.2.1))
+    let admissible := pt != some true || t.all (fun x => x.2.1 == x.2.2)
+    let found := match tier with
+      | .idx i => i == 0 || i == -1
+      | .name s => s == name
+    if ordered && admissible && found && !boundOk then
+      throw "internal: round trip outside the print precision inside the domain of C11_textgrid_inferred"
     -- text layer: the characters written, parsed back (C11_textgrid_text), read from the characters
     let chars := f.chars
     let textDom := f.textOk
@@ -270,7 +283,10 @@ def c11TextGrid : Handler := fun c => do
       ("read", readResJ (readTextGrid .byStart f tier fill)),
       ("read_pinned", readResJ (readTextGrid .pinned f tier fill)),
       ("read_nofill", readResJ nofill),
-      ("spec", objJ [("bound_ok", boolJ boundOk), ("fill", fillSpecJ)])])
+      ("spec", objJ [("bound_ok", boolJ boundOk), ("fill", fillSpecJ),
+        -- the documented inference: a point tier iff every segment has no length at the print precision
+        ("infer_point", boolJ (inferPointAt p t)),
+        ("point_expected", boolJ (pt.getD (inferPointAt p t)))])])
 
 /-- A TextGrid with several tiers (structure only: the harness serialises it in the long and in the
 short layout); numbers are printed at precision `p`. -/
@@ -365,7 +381,12 @@ def c11Frames : Handler := fun c => do
       ("back", listJ tElemJ back),
       -- `skip_frame_times=True`: ids only, which convert back to the bare tokens
       ("back_plain", listJ tElemJ (tokenToTranscript i2t f (rows.map (fun r => (r.1, -1, -1))))),
-      ("spec", objJ [("within", boolJ within), ("shift", ratToJson shift)])])
+      -- C11_frames_unk: the documented id of every token (null: a string would be the id)
+      ("spec", objJ [("within", boolJ within), ("shift", ratToJson shift),
+        ("ids", listJ (fun (x : TElem) =>
+          match specId t2i unk (match x with | .plain tk => tk | .timed tk _ _ => tk) with
+          | .i v => intJ v
+          | .s _ => Json.null) t)])])
 
 def c11Dispatch : Handler := fun _ => do
   let row := fun (d : Dispatch) => (d.fn, objJ [("options", listJ sJ d.options), ("forwarded", listJ sJ d.forwarded)])
